@@ -152,16 +152,18 @@ type Scenario struct {
 	// RawRoute: the requests held in flight go to a route registered on the router itself (a.Router().GET), not
 	// through app.GET (not on the abstract case line: the model does not distinguish it)
 	RawRoute bool `json:",omitempty"`
-	Metrics  bool
-	Tracing  bool
-	Listen   int
-	Starts   []int
-	Readies  []int
-	NReload  int
-	Shuts    []int
-	Stops    []int
-	Reqs     []Rel
-	Rounds   []Round
+	// SlowLog: the log sink takes 150 ms for the line logged during start-up (not on the abstract case line)
+	SlowLog bool `json:",omitempty"`
+	Metrics bool
+	Tracing bool
+	Listen  int
+	Starts  []int
+	Readies []int
+	NReload int
+	Shuts   []int
+	Stops   []int
+	Reqs    []Rel
+	Rounds  []Round
 }
 
 func (sc *Scenario) shortWrite() bool {
@@ -403,9 +405,15 @@ func (c *deadlineCtx) expire() {
 type lockedBuf struct {
 	mu sync.Mutex
 	b  bytes.Buffer
+	// slow: the write that carries the startup marker takes this long (a log sink that is slow when the startup
+	// buffer is flushed: a terminal, a pipe to a collector)
+	slow time.Duration
 }
 
 func (l *lockedBuf) Write(p []byte) (int, error) {
+	if l.slow > 0 && bytes.Contains(p, []byte(startupMarker)) {
+		time.Sleep(l.slow)
+	}
 	l.mu.Lock()
 	defer l.mu.Unlock()
 	return l.b.Write(p)
@@ -665,6 +673,16 @@ func (r *runner) newTransport() *http.Transport {
 // the listener exists, and an immediate one). A port that accepts but does not answer within the probe
 // timeout (bound, nobody serving: the kernel completes handshakes) counts as open — and is counted in
 // slowProbes: on a correct tree that never happens, on a broken one every such probe costs a timeout.
+// portOpen: does a TCP connect to the application's port succeed?
+func (r *runner) portOpen() bool {
+	c, err := net.DialTimeout("tcp", fmt.Sprintf("127.0.0.1:%d", r.appPort), 2*time.Second)
+	if err != nil {
+		return false
+	}
+	c.Close()
+	return true
+}
+
 func (r *runner) probeApp() bool {
 	c, err := net.DialTimeout("tcp", fmt.Sprintf("127.0.0.1:%d", r.appPort), 2*time.Second)
 	if err != nil {
@@ -1179,6 +1197,9 @@ func (r *runner) build() error {
 	}
 	// the logger writes to a buffer of the harness: app.New puts it into startup-buffering mode, and
 	// whether what is logged during start-up ever comes out is part of the observation
+	if sc.SlowLog {
+		r.logBuf.slow = 150 * time.Millisecond
+	}
 	obs := []app.ObservabilityOption{app.WithLogging(logging.WithJSONHandler(), logging.WithOutput(&r.logBuf))}
 	switch {
 	case sc.Metrics:
@@ -1457,7 +1478,12 @@ func (r *runner) run() obsT {
 				}
 			}
 			// (without a logger nothing can be held back)
-			r.fin = [3]bool{r.probeApp(), metUp, !sc.shortWrite() && !r.logBuf.contains(startupMarker)}
+			// the application's port: after Start has returned nothing may listen on it any more — a connect that
+			// succeeds is "open" even if nobody answers on it (a listener left behind by a Start that returned early)
+			// (only where the scenario widens that window — a slow log sink with the listener bound — and only if two
+			// connects 20 ms apart both succeed: a bare connect cannot tell whose listener it reached)
+			left := sc.SlowLog && sc.Listen == lOK && r.portOpen() && func() bool { time.Sleep(20 * time.Millisecond); return r.portOpen() }()
+			r.fin = [3]bool{left || r.probeApp(), metUp, !sc.shortWrite() && !r.logBuf.contains(startupMarker)}
 			if sc.Tracing && time.Since(r.t0) > 4500*time.Millisecond {
 				r.discard = "case took longer than the tracer's periodic export interval"
 			}
